@@ -235,6 +235,7 @@ def bcheck (fs : List Expr) : Bool → Expr → Option IR
     | none => none
     | some b => finish fs (.as t e) b
   | raw, .assoc op pre l r =>
+    if !op.isAssoc then none else
     match bcheck fs pre l with
     | none => none
     | some lb =>
